@@ -6834,7 +6834,9 @@ static int nowDoCvPkaInnerECDSA(ssl_t *ssl, pkaAfter_t *pka,
     tmpEcdsa = psMalloc(ssl->hsPool, len);
     if (tmpEcdsa == NULL)
     {
-        return PS_MEM_FAIL;
+        psFree(sig, ssl->hsPool);
+        rc = PS_MEM_FAIL;
+        goto out;
     }
     tmpEcdsa[0] = (sigLen << 8) & 0xff00;
     tmpEcdsa[1] = sigLen & 0xff;
